@@ -206,6 +206,9 @@ func genImportFile(t *tape.Tape, cls string, pkg string) ImportFile {
 		add(s)
 		out.Imports = append(out.Imports, ImportLine{Line: len(lines), Text: s, Simple: im.simple, Wildcard: im.wildcard, Static: im.stat, Role: im.role})
 	}
+	if t.Bool(1, 10) {
+		add("// caf\u00a7LEGACY\u00a7 au lait: a comment in a legacy 8-bit encoding")
+	}
 	add("")
 	by := func(role string) []string {
 		var r []string
@@ -218,6 +221,18 @@ func genImportFile(t *tape.Tape, cls string, pkg string) ImportFile {
 	}
 	for _, a := range by("annotation") {
 		add("@" + a)
+	}
+	// a fully-qualified name elsewhere in the file whose last segment equals a used import's simple
+	// name (legacy / generated code): it must not make that import look unused
+	var fqnThrows []string
+	for _, im := range imps {
+		if im.role != "" && !im.wildcard && !im.stat && t.Bool(1, 8) {
+			if t.Bool(1, 2) {
+				add("@org.legacy.meta." + im.simple)
+			} else {
+				fqnThrows = append(fqnThrows, "org.legacy.rpc."+im.simple)
+			}
+		}
 	}
 	head := "public class " + cls
 	if isIface {
@@ -273,7 +288,7 @@ func genImportFile(t *tape.Tape, cls string, pkg string) ImportFile {
 		add(fmt.Sprintf("    @SuppressWarnings(value = %s.class)", a))
 	}
 	sig := "    " + generics + ret + " work(" + strings.Join(ps, ", ") + ")"
-	if th := by("throws"); len(th) > 0 {
+	if th := append(by("throws"), fqnThrows...); len(th) > 0 {
 		sig += " throws " + strings.Join(th, ", ")
 	}
 	if isIface {
